@@ -298,6 +298,17 @@ open UA
 abbrev s (x : String) : Bytes := ascii x
 def showBytes (b : Bytes) : String := String.ofList (b.map fun c => if 0x21 ≤ c ∧ c ≤ 0x7E then Char.ofNat c.toNat else '?')
 
+/-- where the values of an authorization response COME FROM, for requests that went through the provider's handlers:
+    what the client sent and what the failing component reported -/
+structure Source where
+  statePlain : Bytes               -- the `state` the client sent as an ordinary request parameter ([] = none)
+  stateRO : Bytes                  -- the `state` claim of the signed request object it sent ([] = none / no request object)
+  roHonoured : Bool                -- the provider supports request objects and this one is valid (signed by the client, addressed to the provider)
+  desc : Option Bytes := none      -- an error answer: the description the provider produced (the storage's OAuth error description,
+                                   -- the text of its plain error, or the provider's own wording where it replaces that text)
+  code : Option Bytes := none      -- … and the error code (the storage's OAuth error code, `server_error` for a plain error)
+  deriving Repr, Inhabited
+
 structure Input where
   uri : Bytes                      -- the redirect URI of the request (registered by the client)
   uriOK : Bool                     -- it is a URL at all (net/url accepts it)
@@ -305,6 +316,7 @@ structure Input where
   rtype : String                   -- response_type
   isError : Bool                   -- an error response (error, error_description, state, session_state)
   params : List (Bytes × Bytes)    -- the parameters the provider produced (empty ones are not produced)
+  source : Option Source := none   -- where state / error text come from (cases driven through the HTTP handlers)
   deriving Repr, Inhabited
 
 inductive Observed
@@ -363,19 +375,47 @@ def unread (q : Bytes) : List Bytes := (splitOn 0x26 q).filter fun seg => !seg.i
 def unreadKept (uriQuery locQuery : Bytes) : Option String :=
   if unread locQuery == unread uriQuery then none else some "existing-query-not-preserved:unread-setting"
 
+/-- **the state the client has to get back.**  OIDC Core §6.1 lets a client split its parameters between the request
+    object and ordinary parameters and says that those of the request object supersede; the library documents the
+    same ("overwrites present values from the Request Object into the auth request"): a request object the provider
+    honours wins WHEN IT CARRIES a state, otherwise the plain parameter counts. -/
+def Source.state (src : Source) : Bytes :=
+  if src.roHonoured && !src.stateRO.isEmpty then src.stateRO else src.statePlain
+
+/-- the value `v` from the source arrives under `name`: next to what the redirect URI itself had under that name,
+    exactly once when it is not empty, not at all when it is (`always`: also when it is empty — the `error` parameter) -/
+def sourceValue (clause : String) (name v : Bytes) (existing got : List (Bytes × Bytes)) (always : Bool := false) : Option String :=
+  if valuesOf name got == valuesOf name existing ++ (if v.isEmpty && !always then [] else [v]) then none else some clause
+
+/-- **source equality**: the state that arrives is the state the client sent, the error code and description that
+    arrive are the ones the provider produced -/
+def sourceArrives (what : String) (i : Input) (existing got : List (Bytes × Bytes)) : Option String :=
+  match i.source with
+  | none => none
+  | some src =>
+    sourceValue s!"{what}-state-not-the-one-the-client-sent" (s "state") src.state existing got
+    <|> (match src.desc with
+         | some d => sourceValue s!"{what}-error_description-not-the-one-the-provider-produced" (s "error_description") d existing got
+         | none => none)
+    <|> (match src.code with
+         | some c => sourceValue s!"{what}-error-not-the-one-the-provider-produced" (s "error") c existing got true
+         | none => none)
+
 def checkQuery (i : Input) (loc : Bytes) : Option String :=
   if !sameTarget (locationBase loc) (locationBase i.uri) then some "redirect-target-differs" else
   paramsArrive "query" i.params (parseQuery (locationQuery i.uri)) (parseQuery (locationQuery loc))
   <|> unreadKept (locationQuery i.uri) (locationQuery loc)
+  <|> sourceArrives "query" i (parseQuery (locationQuery i.uri)) (parseQuery (locationQuery loc))
 
 def checkFragment (i : Input) (loc : Bytes) : Option String :=
   if !sameTarget (locationBase loc) (locationBase i.uri) then some "redirect-target-differs" else
   match locationFragment loc with
-  | none => if i.params.isEmpty then none else some "fragment-missing"
+  | none => (if i.params.isEmpty then none else some "fragment-missing") <|> sourceArrives "fragment" i [] []
   | some f =>
     paramsArrive "fragment" i.params [] (parseQuery f)
     <|> paramsArrive "query" [] (parseQuery (locationQuery i.uri)) (parseQuery (locationQuery loc))
     <|> unreadKept (locationQuery i.uri) (locationQuery loc)
+    <|> sourceArrives "fragment" i [] (parseQuery f)
 
 /-- the fixed part of the auto-submitting page: these start tags, with exactly these attributes -/
 def pageFrame : List Tag :=
@@ -412,6 +452,7 @@ def checkForm (i : Input) (page : Bytes) (ua : List Tag) : Option String :=
   | .ok (action, fields) =>
     if !sameTarget action i.uri then some "form-action-differs" else
     paramsArrive "form" i.params [] fields
+    <|> sourceArrives "form" i [] fields
 
 /-- THE MONITOR: `none` = the observed response satisfies C11 on this input, `some clause` = it does not -/
 def monitor (i : Input) (o : Observed) : Option String :=
